@@ -417,6 +417,7 @@ type FuncContract struct {
 	Assumes   []Clause // assumed at entry of the body without being a caller obligation (listed in the evidence)
 	At        map[string][]Clause // assertions at call sites, keyed by the normalised source text of the call
 	After     map[string][]Clause // assertions right after a call (results bound)
+	AtOpt     map[string]bool     // at-clauses whose call need not occur (at?)
 	Propagates bool               // every error returned by a callee must make this function return an error
 	NoProp    []string            // call texts (prefixes) whose error is deliberately discarded
 	Trusts    []Clause // postconditions assumed by callers but NOT checked against the body (listed as assumptions)
@@ -591,7 +592,7 @@ func (c *Contracts) loadFile(path string, pkgName string) error {
 			}
 			cur.Trusts = append(cur.Trusts, cl)
 			c.Assumes = append(c.Assumes, fmt.Sprintf("%s (trusted postcondition): %s", cur.Key, rest))
-		case "at", "after":
+		case "at", "after", "at?":
 			// at "<call text>" label: expr      (checked just before the call)
 			// after "<call text>" label: expr   (checked just after it; result / r0, r1.. are the call's results)
 			if cur == nil || !strings.HasPrefix(rest, "\"") {
@@ -611,6 +612,13 @@ func (c *Contracts) loadFile(path string, pkgName string) error {
 			cl, err := mkClause(strings.TrimSpace(rest[q+2:]), j.line)
 			if err != nil {
 				return err
+			}
+			if word == "at?" {
+				// optional: checked wherever the call occurs, but the call need not occur
+				if cur.AtOpt == nil {
+					cur.AtOpt = map[string]bool{}
+				}
+				cur.AtOpt[key] = true
 			}
 			if word == "after" {
 				if cur.After == nil {
